@@ -42,6 +42,7 @@ def run(r):
     loader = xtuml.ModelLoader()
     twin = xtuml.ModelLoader()
     events = []
+    accepted, outcomes = [], []
     every = r.get('build_every', 1)
     for k, text in enumerate(r['texts']):
         ev = {'op': 'Input', 'k': k}
@@ -57,7 +58,24 @@ def run(r):
             res = 'PY:' + type(e).__name__
         if res == 'accepted':
             twin.input(text, name='<t%d>' % k)
+            accepted.append((k, text))
         ev['res'] = res
+        # whether a text is accepted does not depend on the texts rejected before it: a loader that only ever saw the
+        # accepted texts gives the same answer
+        ev['fresh'] = True
+        if res == 'ParsingException' and any(o != 'accepted' for o in outcomes):
+            probe = xtuml.ModelLoader()
+            try:
+                with limit(BUDGET * 2):
+                    for j, t in accepted:
+                        probe.input(t, name='<t%d>' % j)
+                    probe.input(text, name='<t%d>' % k)
+                ev['fresh'] = False                    # a loader without the rejected history accepts it
+            except CallTimeout:
+                pass
+            except Exception:
+                pass
+        outcomes.append(res)
         ev['n'] = len(loader.statements)
         # the loader that saw the rejected texts holds the same statements, from the same lines, as its twin that did not
         ev['twin'] = bool(res != 'accepted' or signature(loader) == signature(twin)) if res != 'Timeout' else True
@@ -70,7 +88,7 @@ def run(r):
             out, text1 = build_text(loader)
             out2, text2 = build_text(twin)
             events.append({'op': 'Build', 'k': k, 'res': out, 'n': len(loader.statements),
-                           'twin': bool(out == out2 and text1 == text2)})
+                           'twin': bool(out == out2 and text1 == text2), 'fresh': True})
             if out == 'Timeout':
                 break
     return events
